@@ -154,6 +154,25 @@ def vectors(ref_labels, est_labels):
     return out
 
 
+def localise_block_failure(acc, clause, rl, el, r2, e2, tag, ex):
+    """a block of panel labels raised (some label of it is not accepted by this tree): the block is evaluated pair by
+    pair instead; the first (function, pair) that behaves differently before and after the transformation (different
+    values, value vs exception, or different exception types) is reported as a replayable pair"""
+    with warnings.catch_warnings():
+        warnings.simplefilter("ignore")
+        for f in COMPARE:
+            for i in range(len(rl)):
+                a, b = _pair_value(f, rl[i], el[i]), _pair_value(f, r2[i], e2[i])
+                if a != b:
+                    acc.violation(clause, "chord.%s" % f,
+                                  {"kind": "chordpair", "fn": f, "ref": rl[i], "est": el[i], "ref2": r2[i],
+                                   "est2": e2[i], "tag": tag}, observed={"orig": a, "transformed": b})
+                    return
+    # every pair behaves alike before and after the transformation (same value or same exception type): whether these
+    # labels must be accepted at all is C10's question, not a spelling / transposition matter
+    acc.counters["chord.blocks_raising_alike_before_and_after"] += 1
+
+
 def check_chord_block(acc, ref_labels, est_labels, transform, tag):
     """compare all 12 comparison vectors of the block with the jointly transformed block"""
     r2 = [transform(l) for l in ref_labels]
@@ -163,16 +182,12 @@ def check_chord_block(acc, ref_labels, est_labels, transform, tag):
         v1 = vectors(ref_labels, est_labels)
     except Exception as ex:  # noqa  (the panel was validated label by label at construction: this must not raise)
         acc.counters["chord.source_block_raises"] += 1
-        acc.violation("chord-%s" % tag.split(":")[0], "chord.<comparison>", {"kind": "chordblock", "tag": tag,
-                      "ref": ref_labels[:3], "est": est_labels[:3]},
-                      observed="comparison of grammar-valid panel labels raised %s: %s" % (type(ex).__name__, ex))
+        localise_block_failure(acc, "chord-%s" % tag.split(":")[0], ref_labels, est_labels, r2, e2, tag, ex)
         return
     try:
         v2 = vectors(r2, e2)
     except Exception as ex:  # noqa
-        acc.violation("chord-%s" % tag.split(":")[0], "chord.<comparison>", {"kind": "chordblock", "tag": tag,
-                      "ref": ref_labels[:3], "est": est_labels[:3]},
-                      observed="transformed labels raised %s: %s" % (type(ex).__name__, ex))
+        localise_block_failure(acc, "chord-%s" % tag.split(":")[0], ref_labels, est_labels, r2, e2, tag, ex)
         return
     for f in COMPARE:
         a, b = np.asarray(v1[f]), np.asarray(v2[f])
@@ -204,10 +219,8 @@ def shard_chord(arg):
             acc.states += len(rl)
             acc.nontrivial += len(rl)
             acc.tick({"kind": "chordblock", "tag": "transpose:%d:%s" % (t, tname), "ref": rl[:3], "est": el[:3]})
-            n0 = acc.counters["chord.source_block_raises"]
             check_chord_block(acc, rl, el, lambda l: transpose_label(l, t, table), "transpose:%d:%s" % (t, tname))
-            if acc.counters["chord.source_block_raises"] == n0:
-                acc.counters["chord.transposition_blocks"] += 1
+            acc.counters["chord.transposition_blocks"] += 1
     return acc
 
 
@@ -238,8 +251,8 @@ def shard_respell(arg):
                     v1 = vectors(rl, el)
                     v2 = vectors(r2, e2)
                 except Exception as ex:  # noqa
-                    acc.violation("chord-respell", "chord.<comparison>", {"kind": "chordblock", "tag": "respell:" + who,
-                                  "ref": rl[:3], "est": el[:3]}, observed="raised %s: %s" % (type(ex).__name__, ex))
+                    localise_block_failure(acc, "chord-respell", rl, el, r2, e2, "respell:" + who, ex)
+                    acc.counters["chord.respelling_blocks"] += 1
                     continue
                 for f in COMPARE:
                     a, b = np.asarray(v1[f]), np.asarray(v2[f])
@@ -255,13 +268,20 @@ def shard_respell(arg):
     return acc
 
 
+def _pair_value(f, r, e):
+    try:
+        return float(getattr(chord, f)([r], [e])[0])
+    except Exception as ex:  # noqa
+        return "raised %s" % type(ex).__name__
+
+
 def check_chord_pair(acc, case):
     f = case["fn"]
     with warnings.catch_warnings():
         warnings.simplefilter("ignore")
-        a = float(getattr(chord, f)([case["ref"]], [case["est"]])[0])
-        b = float(getattr(chord, f)([case["ref2"]], [case["est2"]])[0])
-    if a != b:
+        a = _pair_value(f, case["ref"], case["est"])
+        b = _pair_value(f, case["ref2"], case["est2"])
+    if a != b:        # a value vs another value, a value vs an exception, or two different exception types
         acc.violation("chord-%s" % case["tag"].split(":")[0], "chord.%s" % f, case,
                       observed={"orig": a, "transformed": b})
 
